@@ -428,11 +428,7 @@ func (e *arrayValueEnumerator) MoveNext() bool {
 	if e.i >= len(e.a.values)-1 {
 		return false
 	}
-	for {
-		e.i++
-		if e.i < len(e.a.values) && e.a.values[e.i] != nil {
-			break
-		}
+	for e.i++; e.i < len(e.a.values) && e.a.values[e.i] == nil; e.i++ {
 	}
 	return e.i < len(e.a.values)
 }
